@@ -296,6 +296,16 @@ func backSliceOpt(v ssa.Value, through func(ssa.Value) bool, ctrl bool) map[ssa.
 					push(*op)
 				}
 			}
+		case *ssa.Alloc:
+			// a pointer to a local cell stands for the cell's contents
+			for _, st := range cellStores(y) {
+				push(st.Val)
+				if ctrl {
+					for _, cnd := range controlConds(st.Block()) {
+						push(cnd)
+					}
+				}
+			}
 		case *ssa.Parameter:
 			// a parameter of a callee we stepped into: the arguments at its call sites inside the slice are
 			// already pushed as operands of the call
